@@ -279,7 +279,6 @@ def parseRequirement (env : ProcEnv) (x : Ext) (input : List Char) : ReqOut :=
       | (calls, .err e) => ⟨calls, .err e⟩
       | (calls, .panic s) => ⟨calls, .panic s⟩
       | (calls, .ok (kind, c)) =>
-        let requirementEnd := c.pos
         let isNone := match kind with | .none => true | _ => false
         let nameSlice := c.slice nameStart (nameEnd - nameStart)
         match nameSlice with
@@ -308,7 +307,11 @@ def parseRequirement (env : ProcEnv) (x : Ext) (input : List Char) : ReqOut :=
                 let other : PErr := ⟨.string, pos, utf8Len ch⟩
                 let isUrl := match kind with | .url _ => true | _ => false
                 if marker.isNone && isUrl then
-                  ⟨calls, .urlEnds [(';', ⟨.string, requirementEnd - 1, 1⟩), ('#', ⟨.string, requirementEnd - 1, 1⟩)] other⟩
+                  -- (F17) the last byte of the URL text, not of whatever ended the scan
+                  let urlEnd := match calls.getLast? with
+                    | some (.url _ s l) => s + l
+                    | _ => pos
+                  ⟨calls, .urlEnds [(';', ⟨.string, urlEnd - 1, 1⟩), ('#', ⟨.string, urlEnd - 1, 1⟩)] other⟩
                 else ⟨calls, .err other⟩
               | none =>
                 ⟨calls, .ok ⟨name, extras, kind, marker.getD (.leaf true), warns⟩⟩
